@@ -23,6 +23,7 @@ One(s, out) == {[s |-> s, out |-> out]}
 
 Inputs ==
   {[k |-> "Enable"], [k |-> "Disable"], [k |-> "LinkUp"], [k |-> "LinkLost"], [k |-> "Timer"]}
+  \cup {[k |-> "EnableLinkUp"]}       \* the link is up and selected before the application's enable() call has returned
   \cup {[k |-> "S1F13"]}
   \cup {[k |-> "S1F14", ack |-> a] : a \in {0, 1, 256, 257}}    \* 256: COMMACK item of length 0, 257: two bytes 00 00 -- neither is COMMACK = 0
   \cup {[k |-> "Other", w |-> w] : w \in BOOLEAN}
@@ -31,6 +32,7 @@ Inputs ==
 Feasible(s, i) ==
   CASE i.k = "Enable" -> ~s.en
     [] i.k = "Disable" -> s.en
+    [] i.k = "EnableLinkUp" -> ~s.en
     [] i.k = "LinkUp" -> s.en /\ s.link = "down"
     [] i.k = "LinkLost" -> s.link = "up"
     [] i.k = "Timer" -> s.cm \in {"WAIT_CRA", "WAIT_DELAY"}
@@ -39,6 +41,8 @@ Feasible(s, i) ==
 Eff(s, i) ==
   CASE i.k = "Enable" -> One([s EXCEPT !.en = TRUE, !.cm = "NOT_COMMUNICATING"], Quiet)
     [] i.k = "Disable" -> One([s EXCEPT !.en = FALSE, !.cm = "DISABLED", !.link = "down"], Quiet)
+    [] i.k = "EnableLinkUp" ->     \* Enable and LinkUp overlapping: the outcome of Enable followed by LinkUp
+         One([s EXCEPT !.en = TRUE, !.link = "up", !.cm = "WAIT_CRA"], O(<<S1F13out>>, {S1F13out}, 0, 0, "-"))
     [] i.k = "LinkUp" ->
          IF s.cm = "NOT_COMMUNICATING"
            THEN \* (a request queued while the link was down may go out in addition)
